@@ -466,6 +466,7 @@ struct target {
 	struct type *typevalist;
 	struct type *typewchar;
 	int signedchar;
+	int bitfieldalign;  /* unnamed bit-fields affect the alignment of the aggregate */
 };
 
 extern const struct target *targ;
